@@ -206,7 +206,14 @@ def opWC (args obs : List String) : Option DecOut :=
       -- the callers race for the close gate: the closers model allows either to win
       let altRes : List String := (List.replicate (nClosers - 1) "multiple") ++ ["nil"]
       let resOk := sortS res == sortS wantRes || (internalWins && scen != "relisten" && sortS res == sortS altRes)
-      if resOk && frames == wantFrames && lres == wantListen && extra == wantExtra then none
+      -- Listen again right after closure: the earlier read loop may still be clearing its Listening mark
+      -- (Listen returns as soon as the loop closes its channel), so "already listening" is as good as nil
+      let extraOk := extra == wantExtra ||
+        (scen == "relisten" && n ≥ 1 &&
+          (match extra.splitOn "+" with
+           | first :: more => first == "nil" && more.length == n && more.all (fun x => x == "nil" || x == "already")
+           | [] => false))
+      if resOk && frames == wantFrames && lres == wantListen && extraOk then none
       else some s!"model=(res={sortS wantRes} frames={wantFrames} listen={wantListen} extra={wantExtra}) go=({all})"
     some { corr := corr, fails := f15 ++ f16, branch := s!"wc.{scen}.{peer}.{ls}" }
   | _ => none
